@@ -11,7 +11,8 @@
 //   - the child must stay alive (panic / fatal error in its stderr = violation;
 //     every hostile input is on disk before it is sent, so the crash names it),
 //   - runtime.MemStats.TotalAlloc of the child may grow by at most
-//     8 x (blob length + 32 KiB max message) per hostile frame,
+//     8 x (blob length + 32 KiB max message) per frame plus 256 x the bytes
+//     actually sent (bounded amplification of received bytes is not "unbounded"),
 //   - every payload the child serves must be the exact bytes of an existing piece,
 //   - the store tree must not change, completed pieces keep their bytes, the
 //     in-progress torrent keeps its length and finally completes byte-exact
@@ -992,13 +993,14 @@ func TestC14(t *testing.T) {
 			"A case is one session; non-trivial when it contains >=1 hostile frame that was delivered to a live child; distinct = distinct (world, kind, target, stream bytes).")
 	defer run.Finish()
 	run.Assume("the child process is the real kraken scheduler/conn/dispatch/storage code built from /repo; only the metainfo client and the tracker announce client are stand-ins")
-	run.Assume("allocation is judged through runtime.MemStats.TotalAlloc deltas reported by the child; bound 8 x (blob + 32 KiB) per frame in the session")
+	run.Assume("allocation is judged through runtime.MemStats.TotalAlloc deltas reported by the child; bound 8 x (blob + 32 KiB) per frame in the session + 256 x bytes actually sent; an excess in a session that declares no large size must reproduce on an immediate replay")
+	run.Assume(">=512 MiB declarations of a class that already produced an allocation violation in a world are not re-sent to it (each one commits and clears that much memory in an unpatched child)")
 	run.Assume("classes that already crashed a world's child are not re-sent to it (execution-time suppression, counted); on a tree without crashes nothing is suppressed")
 
 	dir := ev.TempDir(t, "c14-")
 	bin := buildChild(t, dir)
 
-	perWorld := run.N(375, 50000)
+	perWorld := run.N(376, 24000)
 	replayWorld, replayIdx := "", -1
 	if rc := run.ReplayCase(); rc != "" {
 		parts := strings.Split(rc, "|")
@@ -1007,7 +1009,7 @@ func TestC14(t *testing.T) {
 			fmt.Sscanf(parts[1], "%d", &replayIdx)
 		}
 	}
-	shards := run.N(1, 3)
+	shards := run.N(2, 3)
 	var wg sync.WaitGroup
 	for _, role := range []string{"agent", "origin"} {
 		for _, limiter := range []bool{false, true} {
